@@ -97,6 +97,9 @@ impl Uni {
         en.0.insert("a".to_string());
         let t3 = t.add_defined_type(DefinedType::Enum(en));
         let t4 = t.add_defined_type(DefinedType::Option(ValueType::Defined(t0)));
+        let t7 = t.add_defined_type(DefinedType::Result { ok: Some(ValueType::Defined(t0)), err: None });
+        let t8 = t.add_defined_type(DefinedType::Tuple(vec![ValueType::Defined(t0)]));
+        let t9 = t.add_defined_type(DefinedType::Option(ValueType::Defined(t1)));
         let res = t.add_resource(Resource { name: "r".to_string(), alias: None });
         let mut ft = FuncType::default();
         ft.params.insert("p".to_string(), ValueType::Defined(t0));
@@ -110,6 +113,9 @@ impl Uni {
             Type::Value(ValueType::Defined(t4)),
             Type::Resource(res),
             Type::Func(f),
+            Type::Value(ValueType::Defined(t7)),
+            Type::Value(ValueType::Defined(t8)),
+            Type::Value(ValueType::Defined(t9)),
         ];
         let type_ix: HashMap<String, usize> = types.iter().enumerate().map(|(i, t)| (format!("{t:?}"), i)).collect();
 
